@@ -224,3 +224,13 @@ Fixpoint lin (lhs : expr) : bool :=
   | ESwitch _ cs => forallb (fun c => lin (snd c)) cs
   | _ => true
   end.
+
+(* ---------- testbench write to a memory row: the MemoryData._Row branch of _eval_assign_inner followed by
+   _PyMemoryState.write(index, rhs << start, mask) on a row holding `old` ---------- *)
+Definition tb_row_write (s : shape) (old start stop rhs : Z) : Z :=
+  let mask := Z.shiftl 1 stop - Z.shiftl 1 start in
+  let value := Z.lor (Z.land (Z.shiftl rhs start) mask) (Z.land old (Z.lnot mask)) in
+  if sgn s then
+    if negb (Z.land value (Z.shiftl 1 (width s - 1)) =? 0) then Z.lor value (Z.shiftl (-1) (width s))
+    else Z.land value (Z.shiftl 1 (width s) - 1)
+  else value.
